@@ -77,6 +77,19 @@ from ahbicht.models.condition_nodes import (  # noqa: E402
 )
 from ahbicht.models.mapping_results import PackageKeyConditionExpressionMapping  # noqa: E402
 
+import attrs  # noqa: E402
+
+
+@attrs.define(auto_attribs=True, kw_only=True)
+class UserHint(Hint):
+    """callers may hand in instances of their own subclasses of the node classes"""
+
+
+@attrs.define(auto_attribs=True, kw_only=True)
+class UserRequirementConstraint(RequirementConstraint):
+    """see UserHint"""
+
+
 CFV = ConditionFulfilledValue
 STATE = {"F": CFV.FULFILLED, "U": CFV.UNFULFILLED, "?": CFV.UNKNOWN, "N": CFV.NEUTRAL}
 STATE_NAME = {v: k for k, v in STATE.items()}
